@@ -9,7 +9,7 @@ use samlang_heap::{Heap, ModuleReference};
 use samlang_services::server_state::ServerState;
 use samlang_services::{completion, rewrite};
 use serde_json::{Value, json};
-use std::collections::{BTreeMap, BTreeSet, HashMap, HashSet};
+use std::collections::{HashMap, HashSet};
 use std::sync::Mutex;
 use std::sync::atomic::{AtomicU64, Ordering};
 use vcore::run::{Run, guarded, machinery_failure, spaced_samples};
@@ -229,17 +229,20 @@ fn check_edits(
     for t in &m.toplevels {
       synt::dump_node(h, &synt::toplevel_node(t), 0, &mut s);
     }
-    let mut imps: BTreeSet<(String, String)> = BTreeSet::new();
+    // a multiset: an import that appears twice after the edit is not "the same program"
+    let mut imps: Vec<(String, String)> = vec![];
     for i in &m.imports {
       for id in &i.imported_members {
-        imps.insert((i.imported_module.pretty_print(h), id.name.as_str(h).to_string()));
+        imps.push((i.imported_module.pretty_print(h), id.name.as_str(h).to_string()));
       }
     }
+    imps.sort();
     (s, imps)
   };
   let (b1, mut i1) = body(&h0, &m1);
   let (b2, i2) = body(&heap, &m2);
-  i1.insert((target.to_string(), "Foo".to_string()));
+  i1.push((target.to_string(), "Foo".to_string()));
+  i1.sort();
   if b1 != b2 || i1 != i2 {
     return Some((
       format!("program-changed:{ctx}"),
